@@ -429,6 +429,16 @@ func prepare(scratch string, needRace, needPlain bool) (*Env, error) {
 		if race {
 			bin = filepath.Join(scratch, "worker-race.test")
 			args = []string{"test", "-c", "-vet=off", "-race", "-o", bin}
+			// Callers that run one at a time hand each other sync.Pool objects all the time (fmt, regexp,
+			// logrus), and every Put/Get pair is a happens-before edge for the race detector that would
+			// not exist between callers running in parallel on their own Ps. In the race build the pool
+			// therefore keeps nothing (the standard library's own "randomly drop on the floor" under
+			// -race, made unconditional), through a build overlay of sync/pool.go; no file of GOROOT is touched.
+			if ov, err := poolOverlay(scratch); err == nil {
+				args = append(args, "-overlay", ov)
+			} else {
+				logf("no pool overlay (%v): race reports may be fewer", err)
+			}
 		}
 		args = append(args, "./worker")
 		c := exec.Command("go1.26.8", args...)
@@ -525,4 +535,32 @@ func guardTests(env *Env) error {
 	}
 	logf("rewriter guard: %d test(s) fail on the rewritten copy AND on the untouched tree (not the rewriter's doing)", len(failed))
 	return nil
+}
+
+// poolOverlay writes a copy of GOROOT/src/sync/pool.go in which Put under -race always drops
+// the object, and the overlay file naming it.
+func poolOverlay(scratch string) (string, error) {
+	out, err := exec.Command("go1.26.8", "env", "GOROOT").Output()
+	if err != nil {
+		return "", err
+	}
+	src := filepath.Join(strings.TrimSpace(string(out)), "src", "sync", "pool.go")
+	b, err := os.ReadFile(src)
+	if err != nil {
+		return "", err
+	}
+	const from = "if runtime_randn(4) == 0 {"
+	if strings.Count(string(b), from) != 1 {
+		return "", fmt.Errorf("sync/pool.go does not have the expected shape")
+	}
+	patched := filepath.Join(scratch, "pool_overlay.go")
+	if err := os.WriteFile(patched, []byte(strings.Replace(string(b), from, "if runtime_randn(4) >= 0 {", 1)), 0o644); err != nil {
+		return "", err
+	}
+	ov := filepath.Join(scratch, "overlay.json")
+	j, _ := json.Marshal(map[string]interface{}{"Replace": map[string]string{src: patched}})
+	if err := os.WriteFile(ov, j, 0o644); err != nil {
+		return "", err
+	}
+	return ov, nil
 }
